@@ -162,10 +162,12 @@ Definition run_checks (st : bstate) (it : item) : res item :=
              | SPList vl, SPList zl => if zlen vl =? zlen (flatten (map (to_nval st) zl)) then OK tt else Err ERuntime
              | _, _ => OK tt
              end);
-    do _ <- check_axis_vs_dimension st it;
     do it1 <- check_or_set_dimensionality it vals;
-    OK (if spv_truthy vals && negb (spv_truthy (fst (get_attr it1 (aidx ty n_dimension))))
-        then put_value it1 (aidx ty n_dimension) (spv_ints [1]) else it1)
+    let it2 := if spv_truthy vals && negb (spv_truthy (fst (get_attr it1 (aidx ty n_dimension))))
+               then put_value it1 (aidx ty n_dimension) (spv_ints [1]) else it1 in
+    (* the axes are checked against the dimension once it is known (it may have been derived from the values just now) *)
+    do _ <- check_axis_vs_dimension st it2;
+    OK it2
   else if Nat.eqb ty T_ZONE then
     match v n_domain with
     | SPScalar (SStr d) =>
@@ -181,11 +183,12 @@ Definition run_checks (st : bstate) (it : item) : res item :=
   else if Nat.eqb ty T_CALCOEF then
     if counts_equal it [n_coefficients; n_references; n_plus_tolerances; n_minus_tolerances] then OK it else Err ERuntime
   else if Nat.eqb ty T_CALMEAS then
-    do _ <- check_axis_vs_dimension st it;
     if negb (counts_equal it [n_maximum_deviation; n_standard_deviation; n_standard; n_plus_tolerance; n_minus_tolerance]) then Err ERuntime
     else
-      fold_left (fun acc n => do a <- acc; check_or_set_dimensionality a (fst (get_attr a (aidx ty n))))
-                [n_maximum_deviation; n_standard_deviation; n_standard; n_plus_tolerance; n_minus_tolerance] (OK it)
+      do it1 <- fold_left (fun acc n => do a <- acc; check_or_set_dimensionality a (fst (get_attr a (aidx ty n))))
+                          [n_maximum_deviation; n_standard_deviation; n_standard; n_plus_tolerance; n_minus_tolerance] (OK it);
+      do _ <- check_axis_vs_dimension st it1;
+      OK it1
   else if Nat.eqb ty T_SPLICE then
     match v n_input_channels, v n_zones with
     | SPList a, SPList b => if zlen (flatten (map (to_nval st) a)) =? zlen (flatten (map (to_nval st) b)) then OK it else Err ERuntime
